@@ -42,9 +42,9 @@ func init() {
 }
 
 type c12Witness struct {
-	App    int       `json:"app"`
-	Inputs []string  `json:"inputs"` // the crash happens during the last one
-	Point  vos.Point `json:"crash_point"`
+	App    int         `json:"app"`
+	Inputs []string    `json:"inputs"` // the crash happens during the last one
+	Point  vos.Point   `json:"crash_point"`
 	Ops    []vos.OpRec `json:"operations_of_the_request,omitempty"`
 }
 
